@@ -409,6 +409,33 @@ func c14r2(c *core.Ctx) {
 				s := m.ExprString(arg)
 				subject := fmt.Sprintf("%s: %s(%s: %s)", f.Name, cal.Name, pname, s)
 				okArg := false
+				// an id-list parameter of an unexported helper of the typed object: judged by what its callers pass
+				if id, isID := ast.Unparen(arg).(*ast.Ident); isID {
+					if pv, isVar := m.Info.ObjectOf(id).(*types.Var); isVar {
+						if _, isP := paramIndexOf(f, pv); isP && f.Obj != nil && !f.Obj.Exported() {
+							acts := actualsOf(m, f, pv)
+							all := len(acts) > 0
+							for _, a := range acts {
+								as := m.ExprString(a.expr)
+								if as != "nil" && fieldKeyOf(m, a.expr) != recv+".ids" && fieldKeyOf(m, a.expr) != recv+".remove" {
+									all = false
+								}
+								// list and parameter kind must match
+								if as != "nil" {
+									isRemoveField := strings.HasSuffix(fieldKeyOf(m, a.expr), ".remove")
+									isRemovePar := pname == "rem" || pname == "remove"
+									if isRemoveField != isRemovePar {
+										all = false
+									}
+								}
+							}
+							if all {
+								c.OK("C14/R2", subject, c.At(call.Pos()), "helper parameter: every caller passes nil or the typed object's own list of the matching kind")
+								continue
+							}
+						}
+					}
+				}
 				switch {
 				case s == "nil":
 					okArg = true
